@@ -76,7 +76,7 @@ PROP = {
                "patterns": "atoms over 2 anonymous strings per role (+ listed concrete ones)", "rule blocks": "one block of one kind per job (thorough: two of a kind)",
                "FindAllString": "0..2 matches"},
     "assumptions": [
-        "A1: a pattern p accepted by regexp.Compile(p) is also accepted as '^'+p+'$' (fact about Go's regexp syntax up to its size limits; needed because Match/owners/parser/prometheus/discovery validate p but compile the anchored form)",
+        "A1: a pattern p accepted by regexp.Compile(p) is also accepted as '^'+p+'$' (fact about Go's regexp syntax up to its size limits; needed because Match/owners/parser/prometheus/discovery validate p but compile the anchored form); A1 is stated for exactly that decoration: any OTHER text pint wraps around a validated pattern (e.g. '^(?:'+p+')$') has its own uninterpreted validity, so compiling it with MustCompile is a reported panic (natively: the unterminated-\\Q spelling)",
         "A2 ((V),(M) only): template expansion of an accepted pattern succeeds at check time — the negation is what (X) explores and where F3 lives",
         "YAML mapping keys are unique", "report positions of the entry are concrete and inside the file",
     ],
